@@ -634,15 +634,17 @@ def hist(p):
         pipeline = pyx.make_pipeline({"charge_collection": [
             {"func": "verif_probes_c19.fill", "name": "fill", "arguments": {"run": 0, "epoch": ep}}]})
         detector = pyx.make_detector(rows=ROWS, cols=COLS)
-        before = outputs._current_output_folder
         try:
             dt = pyxel.run_mode(mode=m, detector=detector, pipeline=pipeline, with_inherited_coords=True)
             err, detail = None, None
         except Exception as ex:  # noqa: BLE001
             dt, err, detail = None, _classify(ex), f"{type(ex).__name__}: {ex}"[:300]
-        after = outputs._current_output_folder
-        if after is None or (before is not None and Path(after) == Path(before)):
-            return None, dt, err, detail or "no new output folder"
+        # the directory this simulation works in is what the outputs object says after run_mode — also when it
+        # is the one of the previous simulation (the specification then rejects it: not pairwise distinct)
+        try:
+            after = outputs.current_output_folder
+        except Exception:  # noqa: BLE001
+            return None, dt, err, detail or "no output folder"
         return Path(after), dt, err, detail
 
     def load(dt, lazy):
